@@ -188,7 +188,7 @@ def main():
                 samples.append(dict(harness=r["job"]["h"], params=r["job"]["p"], path=s["path"], witness=s["witness"]))
     wall = time.time() - t0
     status = "violation" if lines else "inconclusive" if inconc else "holds"
-    if not a.no_evidence:
+    if not a.no_evidence and not a.only:        # partial (development) runs never overwrite the evidence of the full check
         ev = dict(
             property_id=prop, tier=tier, seed=seed, level="model_checking", wall_s=round(wall, 2), violations=len(lines),
             coverage=dict(
